@@ -44,9 +44,11 @@ PARTIAL = [
 
 T = lambda m, q, v=0, tag=None: ["t", m, q, v, tag]     # noqa: E731
 BAD = lambda k="arg": ["bad", k]                        # noqa: E731
+BAD_KINDS = ["arg", "ret", "func", "unhash_arg", "unhash_ret", "unhash_set"]   # the last three are also unhashable
+ALT = "alt_traces"                                      # a second table in the same file
 
 A1 = ["add", 0, [T("m", "my_func"), BAD("arg"), T("m", "myXfunc"), T("m", "MY_FUNC")]]
-A2 = ["add", 1, [T("m", "foo"), T("m", "Foo.bar"), T("M", "foo"), T("m", "my_func")], -1]      # the day before
+A2 = ["add", 1, [T("m", "foo"), T("m", "Foo.bar"), BAD("unhash_arg"), T("M", "foo"), T("m", "my_func"), T("m", "foo")], -1]      # the day before
 A3 = ["add", 2, [T("m", "a%b", 1), BAD("func"), T("m", "aXXb", 1), T("", "foo", 2),
                  T("m", "a[b", 1), T("m", "a[b]c", 1), T("m", "a?c", 1), T("m", "aXc", 1), T("m", "a*b", 1),
                  T("m", "a\\b", 1)]]
@@ -68,6 +70,19 @@ LITERAL_ALPHABET = [A1, A2, A3, A4, X1, R0, F1, F2, F3, F4, F5, F6, L1]
 MUTATORS = [A1, A2, A3, A4, X1, X2, X3, R0]
 
 
+class _Conn:
+    """random.Random whose randrange(3) (the connection draws of random_history) ranges over nconn connections"""
+
+    def __init__(self, rnd, nconn):
+        self._r, self._n = rnd, nconn
+
+    def __getattr__(self, name):
+        return getattr(self._r, name)
+
+    def randrange(self, n):
+        return self._r.randrange(self._n if n == 3 else n)
+
+
 def query_sweep():
     qs = []
     i = 0
@@ -83,16 +98,17 @@ def query_sweep():
     return qs
 
 
-def random_history(rnd, maxlen=40):
+def random_history(rnd, maxlen=40, nconn=3, tables=None):
     n = rnd.randint(5, maxlen)
     ops = []
+    rnd = _Conn(rnd, nconn)
     for _ in range(n):
         x = rnd.random()
         if x < 0.35:
             specs = []
             for _ in range(rnd.randint(0, 5)):
                 if rnd.random() < 0.15:
-                    specs.append(BAD(rnd.choice(["arg", "ret", "func"])))
+                    specs.append(BAD(rnd.choice(BAD_KINDS)))
                 else:
                     specs.append(T(rnd.choice(["m", "m", "M", ""]), rnd.choice(sm.QUALNAMES + sm.GLOB_QUALNAMES),
                                    rnd.choice([0, 0, 0, 1, 2, 3, 6, 7, 8, 9, 10])))
@@ -103,7 +119,7 @@ def random_history(rnd, maxlen=40):
             if f == "interrupt":
                 ops.append(["add_fault", rnd.randrange(3), specs, ["interrupt", rnd.randint(1, 70)]])
             elif f == "locked":
-                ops.append(["add_fault", rnd.choice([1, 2]), specs, ["locked"]])
+                ops.append(["add_fault", 1 + rnd._r.randrange(max(1, nconn - 1)), specs, ["locked"]])
             else:
                 ops.append(["add_fault", rnd.randrange(3), specs, ["evil", rnd.randint(0, len(specs))]])
         elif x < 0.53:
@@ -114,7 +130,9 @@ def random_history(rnd, maxlen=40):
         elif x < 0.90:
             ops.append(["modules", rnd.randrange(3)])
         else:
-            ops.append(["table"])
+            ops.append(["table"] if not tables else ["table", rnd.choice(sorted(set(tables)))])
+    if tables:
+        return [["tables", list(tables)]] + ops + [["table", t] for t in sorted(set(tables))]
     ops.append(["table"])
     return ops
 
@@ -156,15 +174,39 @@ def campaign_positions(tier):
             specs = []
             for i in range(L):
                 if mask >> i & 1:
-                    specs.append(BAD(["arg", "ret", "func"][(mask + i) % 3]))
+                    specs.append(BAD(BAD_KINDS[(mask + i) % len(BAD_KINDS)]))
                 else:
                     specs.append(T(["m", "M"][(mask + i) % 2], sm.QUALNAMES[(mask * 3 + i) % 7], i % 2))
+            if mask % 4 == 1:
+                specs.append(specs[0])                    # an exact duplicate within the batch
+            if mask % 8 == 6:
+                specs.insert(1, specs[-1])
             ops.append(["add", mask % 3, specs])
             ops.append(["table"])
             if mask % 5 == 0:
                 ops.append(["filter", (mask + 1) % 3, "m", None, 2000])
         ops += [["modules", 0], ["filter", 1, "M", "", 2000]]
         hs.append(ops)
+    return hs
+
+
+def campaign_tables(rnd, tier):
+    """stores on different tables of one file (SQLiteStore(conn, table)): each table is a store of its own - rows
+    added through a store land in its table and nowhere else, and it answers from its table only"""
+    hs = []
+    x = [T("m", "my_func"), BAD("arg"), T("M", "foo", 1)]
+    y = [T("m", "foo"), T("m", "my_func", 8)]
+    for tables in ([sm.TABLE, sm.TABLE, ALT, ALT], [ALT, sm.TABLE, "third_table"]):
+        a = tables.index(ALT)
+        d = tables.index(sm.TABLE)
+        hs.append([["tables", tables],
+                   ["add", a, x], ["table", ALT], ["table"], ["filter", d, "m", None, 2000], ["filter", a, "m", None, 2000],
+                   ["modules", d], ["modules", a],
+                   ["add", d, y], ["table"], ["table", ALT], ["filter", a, "m", "my_func", 2000],
+                   ["filter", d, "m", "my_func", 2000], ["reopen", a], ["reopen", d], ["filter", a, "M", None, 2000],
+                   ["add_fault", a, y, ["interrupt", 7]], ["modules", a], ["modules", d], ["table", ALT], ["table"]])
+        for _ in range(40 if tier == "quick" else 500):
+            hs.append(random_history(rnd, 30, len(tables), tables))
     return hs
 
 
@@ -491,10 +533,13 @@ def campaign_concurrency(work, tier, it, dist):
 # ------------------------------------------------------------------------------------------------
 # describing failures
 # ------------------------------------------------------------------------------------------------
-def describe_history(pre, steps):
-    """(index, sentence) of the first step whose observation breaks the property according to the reference, else None"""
-    ref = sm.RefModel(pre)
+def describe_history(pre, steps, tables=None):
+    """(index, sentence) of the first step whose observation breaks the property according to the reference, else None.
+    With `tables` (table name per connection) every table of the file has its own reference state."""
+    refs = {sm.TABLE: sm.RefModel(pre)}
     for i, (op, obs) in enumerate(steps):
+        t = sm.table_of(op, tables)
+        ref = refs.setdefault(t or sm.TABLE, sm.RefModel())
         if op[0] == "filter":
             d = ref.describe_filter(op, obs)
             if d:
@@ -505,15 +550,16 @@ def describe_history(pre, steps):
                 return i, f"list_modules() returned {obs.get('mods', obs.get('err'))}, modules with rows: {sorted(want)}"
         elif op[0] == "table":
             if list(obs["table"]) != ref.rows or not obs["ok"]:
-                return i, (f"table read through an independent connection has {len(obs['table'])} rows, the committed "
-                           f"batches have {len(ref.rows)} (integrity_ok={obs['ok']})")
+                return i, (f"table {t} read through an independent connection has {len(obs['table'])} rows, the batches "
+                           f"committed through its stores have {len(ref.rows)} (integrity_ok={obs['ok']})")
         elif op[0] == "add_fault" and obs["k"] != "none":
             full = ref.rows + [r for r in sm.batch_rows(op[2]) if r is not None]
             if list(obs["table"]) not in (ref.rows, full) or not obs["ok"]:
                 return i, (f"add() interrupted by {op[3]} left {len(obs['table'])} rows; before: {len(ref.rows)}, "
                            f"whole batch would be {len(full)} (integrity_ok={obs['ok']}, error {obs.get('err')})")
         elif obs["k"] == "raised":
-            return i, f"{op[0]} raised {obs.get('err')}"
+            return i, (f"{op[0]}() raised {obs.get('err')}" +
+                       ("; the batch's serialisable traces are lost" if op[0] == "add" else ""))
         ref.apply(op, obs)
     return None
 
@@ -521,6 +567,8 @@ def describe_history(pre, steps):
 def summarise_ops(ops):
     out = []
     for op in ops:
+        if op[0] == "tables":
+            out.append("stores " + ", ".join(f"conn{i} on table {t}" for i, t in enumerate(op[1])))
         if op[0] in ("add", "add_fault"):
             rows = [f"{r[0]}:{r[1]}" if r else "<unserialisable>" for r in sm.batch_rows(op[2])]
             if len(rows) > 12:
@@ -541,11 +589,14 @@ def minimise(work, ops):
     """drop operations while the last query keeps failing (reference-guided delta debugging on the real store)"""
     path = os.path.join(work, "min.db")
 
+    tables, body = sm.split_head(ops)
+    head = [["tables", tables]] if tables else []
+
     def fails(cand):
-        steps = sm.run_history(path, cand)
-        d = describe_history([], steps)
+        steps = sm.run_history(path, head + cand)
+        d = describe_history([], steps, tables)
         return d is not None and d[0] == len(cand) - 1
-    cur = list(ops)
+    cur = body
     if not fails(cur):
         return ops
     i = len(cur) - 2
@@ -564,7 +615,7 @@ def minimise(work, ops):
                 if fails(cand):
                     cur, op = cand, cand_op
                 j -= 1
-    return cur
+    return head + cur
 
 
 # ------------------------------------------------------------------------------------------------
@@ -656,6 +707,9 @@ def run(ctx):
     # 4. unserialisable traces at every position
     for ops in campaign_positions(ctx.tier):
         histories.append(("unserialisable-positions", ops))
+    # 4a. stores on different tables of one file
+    for ops in campaign_tables(rnd, ctx.tier):
+        histories.append(("two-tables", ops))
     # 4b. the same rows committed on different calendar days
     for ops in campaign_days(ctx.tier):
         histories.append(("calendar-days", ops))
@@ -672,9 +726,11 @@ def run(ctx):
     t_exec = time.time()
     results = exec_histories(ctx.work, [h for _, h in histories])
     for (kind, ops), steps in zip(histories, results):
-        ref = sm.RefModel()
+        tables, _ = sm.split_head(ops)
+        refs = {}
         nontrivial_q = False
         for op, obs in steps:
+            ref = refs.setdefault(sm.table_of(op, tables) or sm.TABLE, sm.RefModel())
             dist["op_" + op[0]] += 1
             if op[0] == "add_fault":
                 if obs["k"] == "none":
@@ -688,8 +744,11 @@ def run(ctx):
             ref.apply(op, obs)
         dist["hist_" + kind] += 1
         dist["hist_len_%s" % ("1-4" if len(ops) <= 5 else "5-20" if len(ops) <= 20 else "21-60" if len(ops) <= 60 else "61+")] += 1
-        cases.append({"kind": kind, "ops": ops, "steps": steps, "pre": [], "nontrivial": nontrivial_q and bool(ref.rows),
-                      "term": sm.hist_term(it, [], steps)})
+        any_rows = any(r.rows for r in refs.values())
+        for t in (sorted(set(tables)) if tables else [None]):
+            sub = steps if t is None else sm.project(steps, tables, t)
+            cases.append({"kind": kind, "ops": ops, "steps": steps, "pre": [], "tables": tables,
+                          "nontrivial": nontrivial_q and any_rows, "term": sm.hist_term(it, [], sub)})
     t_exec = time.time() - t_exec
 
     # 6..8 campaigns with their own case shapes
@@ -714,18 +773,20 @@ def run(ctx):
         c = cases[i]
         rec = {"kind": c["kind"], "verdict": code}
         if "steps" in c:
-            d = describe_history(c["pre"], c["steps"])
+            tables, body = sm.split_head(c["ops"])
+            head = [["tables", tables]] if tables else []
+            d = describe_history(c["pre"], c["steps"], tables)
             rec["ops"] = c["ops"]
             rec["pre"] = c["pre"]
             if d:
                 k, sentence = d
                 rec["failing_step"] = k
                 rec["observed"] = c["steps"][k][1]
-                prefix_ops = c["ops"][:k + 1]
+                prefix_ops = head + body[:k + 1]
                 if code == 2 and not failures and not c["pre"]:
                     prefix_ops = minimise(ctx.work, prefix_ops)
                     steps = sm.run_history(os.path.join(ctx.work, "min.db"), prefix_ops)
-                    d2 = describe_history([], steps)
+                    d2 = describe_history([], steps, tables)
                     if d2:
                         sentence = d2[1]
                         rec["observed"] = steps[d2[0]][1]
@@ -791,15 +852,17 @@ def replay(ctx, payload):
     if not ops:
         print(json.dumps(payload, indent=1)[:4000])
         return 0
+    tables, _ = sm.split_head(ops)
     steps = sm.run_history(os.path.join(ctx.work, "replay.db"), ops)
     for op, obs in steps:
         shown = {k: v for k, v in obs.items() if k != "table"}
         print("  ", summarise_ops([op]) or op[0], "->", json.dumps(shown, default=str)[:400])
-    d = describe_history([], steps)
+    d = describe_history([], steps, tables)
     it = sm.Interner()
-    term = sm.hist_term(it, [], steps)
+    terms = [sm.hist_term(it, [], sm.project(steps, tables, t)) for t in sorted(set(tables))] if tables else \
+        [sm.hist_term(it, [], steps)]
     with cases_built(ctx.work):
-        outs = common.run_coq_shards(ctx.work, "replay", it.compile_defs(ctx.work, "replaydefs"), [term], "scase",
+        outs = common.run_coq_shards(ctx.work, "replay", it.compile_defs(ctx.work, "replaydefs"), terms, "scase",
                                      "bad verdict_c09 0 cases ++ map (fun o => match o with Some i => (1000, i) | None => (1000, 1000) end) "
                                      "(map first_bad cases)")
     print("Coq [(case, verdict)] ++ [(1000, index of the first failing step | 1000 = none)]:",
